@@ -150,6 +150,11 @@ func disjointFromTail(v, b any) bool { return true }
 // is evaluated (interpreted by the verifier only).
 func localBool(name string) bool { return true }
 
+// called: a call whose callee expression reads the given source text (e.g. "f.funcs.isInit") was
+// executed on this path since the start of the current loop iteration (since the function's entry
+// outside loops); interpreted by the verifier only.
+func called(callee string) bool { return true }
+
 // arg: in a `//@ callsite f: e` assertion, the i-th argument of the call to f.
 func arg[T any](i int) T { var z T; return z }
 
